@@ -799,6 +799,8 @@ inline void Table::erase() {
 inline void Table::ensure_loop() {
   if (loop_item)
     return;
+  if (!ok())
+    fail("ensure_loop(): table not found");
   Item new_item(LoopArg{});
   loop_item = &bloc.items.at(positions[0]);
   int n = 0;
